@@ -1,36 +1,56 @@
-"""Batch trace validation: many recorded executions, one TLC run."""
+"""Batch trace validation: many recorded executions, one TLC run.
+
+Every trace gets a verdict:
+* accepted;
+* rejected at row l (no specification step explains the row) with the projected fields that differ (DIAG);
+* drove the specification into a state that violates one of the invariants listed in the Trace .cfg
+  (the steps were allowed, the property is not) - TLC stops there, so the trace is taken out and the rest
+  of the batch is validated again.
+"""
 
 from __future__ import annotations
 
 import json
 import re
 
-from .tlc import TLCFailure
+from . import tlaval
+from .tlc import TLCFailure, run_tlc
 
 _RE_REJECT = re.compile(r'<<"REJECT", (\d+), (\d+)>>')
+_RE_TID = re.compile(r"/\\ tid = (\d+)")
 
 
-def validate(ctx, module: str, traces: list, *, cfg: str | None = None, batch: int = 2000,
-             timeout: float = 1800, dfs: bool = False, env: dict | None = None) -> list[tuple[int, int]]:
-    """Validate `traces` (JSON-able) against Trace module `module`.
-
-    Returns [(trace_index, first_unexplained_line)] for rejected traces
-    (0-based trace index, 1-based line).  Every trace gets a verdict.
-    """
-    rejected: list[tuple[int, int]] = []
+def run_batch(ctx, module: str, traces: list, *, batch: int = 2000, timeout: float = 3000, spec_dir=None, tag: str = "") -> dict:
+    """-> {"rejected": [(index, line)], "invariant": [(index, name)], "diags": {(index, line): sets}}"""
+    rejected: list = []
+    inv: list = []
+    diags: dict = {}
     for off in range(0, len(traces), batch):
-        part = traces[off : off + batch]
-        f = ctx.tmp / f"traces-{module}-{off}.json"
-        f.write_text(json.dumps(part))
-        e = {"TRACE_FILE": str(f)}
-        e.update(env or {})
-        r = ctx.tlc(module, cfg, workers=1, env=e, timeout=timeout, dfs_queue=dfs, allow_violation=False)
-        if "Model checking completed" not in r.stdout:
-            raise TLCFailure(f"trace validation run did not complete:\n{r.stdout[-3000:]}")
-        for line in r.raw_printed:
-            m = _RE_REJECT.fullmatch(line)
-            if m:
-                rejected.append((off + int(m.group(1)) - 1, int(m.group(2))))
-        ctx.traces_validated += len(part)
-        f.unlink()
-    return rejected
+        live = list(range(off, min(off + batch, len(traces))))
+        while live:
+            f = ctx.tmp / f"traces-{module}-{tag}-{off}.json"
+            f.write_text(json.dumps([traces[i] for i in live]))
+            r = run_tlc(module, workers=1, env={"TRACE_FILE": str(f)}, timeout=timeout, spec_dir=spec_dir, allow_violation=True)
+            f.unlink()
+            ctx.states += r.distinct
+            ctx.transitions += r.generated
+            ctx.tlc_runs.append({"module": module, "cfg": module + ".cfg", "distinct_states": r.distinct, "states_generated": r.generated,
+                                 "depth": r.depth, "wall_s": round(r.wall_s, 2)})
+            bad = [v for v in r.violated if v not in ("<postcondition>",)]
+            if bad:
+                tids = _RE_TID.findall(r.error_trace)
+                if not tids:
+                    raise TLCFailure(f"{module}: {bad} violated but the trace id cannot be found\n{r.error_trace[:3000]}")
+                k = int(tids[-1]) - 1
+                inv.append((live[k], bad[0]))
+                del live[k]
+                continue
+            if "Model checking completed" not in r.stdout:
+                raise TLCFailure(f"{module}: trace validation did not complete:\n{r.stdout[-3000:]}")
+            for a, b in _RE_REJECT.findall(r.stdout):
+                rejected.append((live[int(a) - 1], int(b)))
+            for d in tlaval.extract_printed(r.stdout, "DIAG"):
+                diags[(live[d[0] - 1], d[1])] = d[2]
+            ctx.traces_validated += len(live)
+            break
+    return {"rejected": rejected, "invariant": inv, "diags": diags}
